@@ -10,3 +10,10 @@ def find_index(np.ndarray[double, ndim=1, mode='c'] x, double v, double padding=
 
 def remainder(double a, double b):
     return _remainder(a, b)
+
+# --- C17: raysect's find_index (the one voxels.pyx cimports) ---
+from raysect.core.math.cython.utility cimport find_index as _rs_find_index
+
+def rs_find_index(np.ndarray[double, ndim=1, mode='c'] x, double v):
+    cdef double[::1] xv = x
+    return _rs_find_index(xv, v)
